@@ -17,6 +17,10 @@
 (*             [kind : "p" | "item" | "other", text : Seq(code point),     *)
 (*              mixed : p has child elements (outside C17), id]            *)
 (*     items : Seq of [id, slug, type, object_id, mos_id, note]            *)
+(* A time is (local quarter-seconds since the base instant) + Zone * 2^27, *)
+(* Zone = 0 without a UTC-offset designator, 1 for "Z", 2 for "+01:00":    *)
+(* the designator is part of the value and is carried by derived times.    *)
+(* A story whose storyID is blank has id None ("~").                       *)
 (* Opt(x) is <<>> (absent, the accessor returns None) or <<x>>.            *)
 (* Any == <<-1>> marks a value the properties leave unconstrained.         *)
 (***************************************************************************)
